@@ -224,6 +224,14 @@ func init() {
 			}
 			return strings.Join(append(o, "WRITEERR"), " ")
 		}
+		// the conversion does not change the cue list: writing the destination a second time gives the same file
+		first, _ := ioutil.ReadFile(out)
+		if err := s.Write(out); err != nil {
+			return strings.Join(append(o, "WRITEERR"), " ")
+		}
+		if second, _ := ioutil.ReadFile(out); !bytes.Equal(first, second) {
+			return strings.Join(append(o, "REWRITE-DIFFERS"), " ")
+		}
 		back, err := astisub.OpenFile(out)
 		if err != nil {
 			return strings.Join(append(o, "REOPENERR"), " ")
